@@ -36,12 +36,12 @@ type KV struct {
 	V JV
 }
 
-func jNull() JV            { return JV{K: 'z'} }
-func jBool(b bool) JV      { return JV{K: 'b', B: b} }
-func jNum(f float64) JV    { return JV{K: 'n', N: f} }
-func jStr(s string) JV     { return JV{K: 's', S: s} }
-func jArr(xs ...JV) JV     { return JV{K: 'a', A: xs} }
-func jObj(kvs ...KV) JV    { return JV{K: 'o', O: kvs} }
+func jNull() JV         { return JV{K: 'z'} }
+func jBool(b bool) JV   { return JV{K: 'b', B: b} }
+func jNum(f float64) JV { return JV{K: 'n', N: f} }
+func jStr(s string) JV  { return JV{K: 's', S: s} }
+func jArr(xs ...JV) JV  { return JV{K: 'a', A: xs} }
+func jObj(kvs ...KV) JV { return JV{K: 'o', O: kvs} }
 
 func (v JV) MarshalJSON() ([]byte, error) {
 	switch v.K {
@@ -281,12 +281,12 @@ func mkRef(ctor, arg string) WRef { return dumpRef(WRef{Ctor: ctor, Arg: arg}.bu
 // ---------- contexts ----------
 
 type WSCtx struct {
-	Kind  string   `json:"kind"`
-	Key   string   `json:"key"`
-	Name  *string  `json:"name"`
-	Anon  bool     `json:"anon"`
-	Sec   *string  `json:"sec"`
-	Attrs []WAttr  `json:"attrs"` // [name, JV]
+	Kind  string  `json:"kind"`
+	Key   string  `json:"key"`
+	Name  *string `json:"name"`
+	Anon  bool    `json:"anon"`
+	Sec   *string `json:"sec"`
+	Attrs []WAttr `json:"attrs"` // [name, JV]
 }
 
 // WAttr marshals as the two-element array [name, value].
